@@ -93,8 +93,12 @@ func (n *KapacitorLoopbackNode) BatchPoint(bp edge.BatchPointMessage) error {
 			tags[k] = v
 		}
 	}
+	name := n.begin.Name()
+	if n.k.Measurement != "" {
+		name = n.k.Measurement
+	}
 	p := edge.NewPointMessage(
-		n.begin.Name(),
+		name,
 		n.k.Database,
 		n.k.RetentionPolicy,
 		models.Dimensions{},
